@@ -109,7 +109,7 @@ def letter_case(rng, s):
 
 def w_deterministic(ctx, rng, i):
     fs = set_fs(rng)
-    n = int(rng.choice([17, 32, 100, 257, 1024]))
+    n = core.long_or(rng, i, int(rng.choice([17, 32, 100, 257, 1024])))
     n_pol = int(rng.integers(1, 3))
     noise = bool(rng.integers(2))
     amp = float(10 ** rng.uniform(-4, -0.5)) if rng.integers(8) else float(10 ** rng.choice([-9.0, -7.0, 0.5]))
